@@ -51,13 +51,41 @@ def run(ctx):
             order = rng.sample(range(6), 6)
             cut = sorted(rng.sample(range(1, 6), 3))
             groups = [order[:cut[0]], order[cut[0]:cut[1]], order[cut[1]:cut[2]], order[cut[2]:]]
-            macs = [[[pop[i] for i in g], 0] for g in groups]
-            for _ in range(6 if quick else 60):
-                re1 = [rng.randrange(4) for _ in range(rng.randrange(1, 3))]
-                pr1 = [rng.randrange(4) for _ in range(rng.randrange(1, 3))]
+            # some macrostates carry a user-chosen name: that of any member, not necessarily the smallest
+            macs = [[[pop[i] for i in g], 0, rng.choice([None, rng.randrange(len(g))])] for g in groups]
+            for _ in range(40 if quick else 200):
+                re1 = [rng.randrange(4) for _ in range(rng.randrange(1, 4))]
+                pr1 = [rng.randrange(4) for _ in range(rng.randrange(1, 4))]
                 re2, pr2 = list(re1), list(pr1)
                 rng.shuffle(re2); rng.shuffle(pr2)
                 reqs.append(("c11_reaction", ["m", macs, re1, pr1, re2, pr2, "condensed", None, rng.randrange(2)]))
+        # overlapping member sets while the first macrostate is alive (direct statement, no model request)
+        oreqs = []
+        for _ in range(60 if quick else 1500):
+            pop = complexes(rng, 5)
+            s1 = rng.sample(range(5), rng.randrange(1, 4))
+            s2 = rng.sample(range(5), rng.randrange(1, 4))
+            if set(s1) == set(s2):
+                continue
+            oreqs.append(("c11_macro_overlap", [pop, s1, s2, rng.randrange(2)]))
+        okinds = {}
+        for rq, r in zip(oreqs, run_impl(oreqs)):
+            what = None
+            if isinstance(r, Err):
+                what = f"raised {r.kind}"
+            elif r[0] == "object":
+                if r[1]:
+                    what = "a different member set was resolved to the live macrostate"
+                elif r[2] != r[4] or r[3] != r[4]:
+                    what = (f"an unnamed macrostate got name {r[2]!r} and representative {r[3]!r}; its canonically smallest "
+                            f"member is {r[4]!r}")
+                elif r[5] != len(set(rq[1][2])) or not r[6]:
+                    what = "length / members differ from the requested set"
+            okinds[r[0] if not isinstance(r, Err) else r.kind] = okinds.get(r[0] if not isinstance(r, Err) else r.kind, 0) + 1
+            if what:
+                found.append({"key": {"op": rq[0], "arg": rq[1]}, "input": [rq[0], rq[1]], "what": what,
+                              "snippet": f"# harness op {rq[0]} {rq[1]!r} (harness/impl/compare.py)"})
+        ctx.cov["correspondence"]["overlapping-macrostates(impl)"] = {"cases": len(oreqs), "outcomes": okinds}
         impl = run_impl(reqs)
         mreqs, idx = [], []
         for k, (rq, r) in enumerate(zip(reqs, impl)):
